@@ -440,7 +440,7 @@ def known_abort_truncate_fault(body):
 
 
 from zverif.harness.c12 import h_program as _conn_program  # noqa: E402
-from zverif.harness.c13 import h_directed_undo_pack as _blob_undo_abort, h_undo_fault as _blob_undo_fault  # noqa: E402
+from zverif.harness.c13 import h_directed_undo_pack as _blob_undo_abort, h_undo_fault as _blob_undo_fault, h_foreign_finish as _blob_foreign_finish  # noqa: E402
 
 HARNESSES = [
     Harness('fault', h_fault,
@@ -502,6 +502,13 @@ HARNESSES = [
             symbolic='history selectors, final step selector (incl. the failing undo of the two newest transactions)', bounds='programs of 5-10 steps; real scratch directory',
             oracle='blob revision model + directory listing', code=['BlobStorage.undo (dirty_oids)', 'BlobStorage.tpc_abort', '_blob_tpc_abort'],
             quick=dict(timeout=150, shards=shards(kind=['proxy', 'file'])), thorough=dict(timeout=300, shards=shards(kind=['proxy', 'file']))),
+    Harness('blob_refused_finish', _blob_foreign_finish,
+            decides='a refused tpc_finish (foreign transaction; callback raising before the commit point) followed by the abort leaves no blob '
+                    'file of the transaction behind and a usable storage (same harness as C13 foreign_finish)',
+            symbolic='point (after the stores / after the vote), kind of refusal (2), number of blobs (1-2)',
+            bounds='storage-level two-phase commit of 1-2 new blobs', oracle='blob directory listing before/after',
+            code=['BlobStorage.tpc_finish', 'BlobStorageMixin._blob_tpc_finish/_blob_tpc_abort', 'FileStorage.tpc_finish/_abort'],
+            quick=dict(timeout=60, shards=shards(kind=['file', 'mapping', 'proxy'])), thorough=dict(timeout=120, shards=shards(kind=['file', 'mapping', 'proxy']))),
     Harness('blob_undo_fault', _blob_undo_fault,
             decides='(C13 undo_fault) an undo during which any one file-system operation of the blob code fails stands completely or leaves nothing behind',
             symbolic='f = index of the failing operation', bounds='one fault per undo', oracle='blob revision model + directory listing',
